@@ -40,6 +40,9 @@ impl Wake for CWaker {
     }
 }
 
+
+use crate::sched::{with_helpers, Job, HELPERS};
+
 #[derive(Default)]
 struct ProducerOut {
     accepted: Vec<u8>,
@@ -121,13 +124,11 @@ pub fn run(ctx: &mut Ctx) -> Result<RunOut, Violation> {
     let cout = Arc::new(Mutex::new(ConsumerOut::default()));
 
     // ---------------- producer thread
-    let ph = {
+    let pjob: Job = {
         let sched = sched.clone();
         let pout = pout.clone();
         let prog = prog.clone();
-        std::thread::Builder::new()
-            .name("sim-producer".into())
-            .spawn(move || {
+        Box::new(move || {
                 http_serve::verif::set_sched(Some(sched.clone() as Arc<dyn http_serve::verif::Sched>));
                 sched.start_thread(0);
                 let r = catch(|| {
@@ -235,17 +236,15 @@ pub fn run(ctx: &mut Ctx) -> Result<RunOut, Violation> {
                 });
                 sched.finish_thread(r.err());
                 http_serve::verif::set_sched(None);
+                crate::sched::TID.with(|t| t.set(usize::MAX));
             })
-            .expect("spawn producer")
     };
 
     // ---------------- consumer thread
-    let ch = {
+    let cjob: Job = {
         let sched = sched.clone();
         let cout = cout.clone();
-        std::thread::Builder::new()
-            .name("sim-consumer".into())
-            .spawn(move || {
+        Box::new(move || {
                 http_serve::verif::set_sched(Some(sched.clone() as Arc<dyn http_serve::verif::Sched>));
                 sched.start_thread(1);
                 let r = catch(|| {
@@ -369,13 +368,25 @@ pub fn run(ctx: &mut Ctx) -> Result<RunOut, Violation> {
                 });
                 sched.finish_thread(r.err());
                 http_serve::verif::set_sched(None);
+                crate::sched::TID.with(|t| t.set(usize::MAX));
             })
-            .expect("spawn consumer")
     };
 
-    let finished = sched.run_to_completion(Duration::from_secs(15));
-    let _ = ph.join();
-    let _ = ch.join();
+    let finished = with_helpers(|ph, ch| {
+        ph.run(pjob);
+        ch.run(cjob);
+        let finished = sched.run_to_completion(Duration::from_secs(15));
+        if finished {
+            ph.wait();
+            ch.wait();
+        }
+        finished
+    });
+    if !finished {
+        // A helper is stuck inside the code under test: abandon the pair (the run is reported
+        // as a hang); fresh helpers are created for the next run.
+        HELPERS.with(|h| *h.borrow_mut() = None);
+    }
     let mut st = sched.m.lock().unwrap();
     ctx.tape = st.tape.take().expect("tape comes back");
     let p = std::mem::take(&mut *pout.lock().unwrap());
